@@ -287,7 +287,9 @@ namespace pika::threads::detail {
             thread_id_ref_type thrd = std::move(next_thrd);
 
             // Get the next pika thread from the queue
+            PIKA_VERIF_PRE("el.top", static_cast<scheduler_base const*>(&scheduler));
             bool running = this_state.load(std::memory_order_relaxed) < runtime_state::pre_sleep;
+            PIKA_VERIF_POST("el.top", static_cast<scheduler_base const*>(&scheduler), num_thread, static_cast<std::uint64_t>(static_cast<std::uint8_t>(this_state.load(std::memory_order_relaxed))));
 
             // extract the stealing mode once per loop iteration
             bool enable_stealing = scheduler.SchedulingPolicy::has_scheduler_mode(
@@ -531,12 +533,15 @@ namespace pika::threads::detail {
                         scheduler.SchedulingPolicy::cleanup_terminated(num_thread, true) &&
                         scheduler.SchedulingPolicy::get_queue_length(num_thread) == 0;
 
+                    PIKA_VERIF_PRE("el.chk", static_cast<scheduler_base const*>(&scheduler));
                     if (this_state.load() == runtime_state::pre_sleep)
                     {
+                        PIKA_VERIF_POST("el.chk", static_cast<scheduler_base const*>(&scheduler), num_thread, static_cast<std::uint64_t>(static_cast<std::uint8_t>(this_state.load())) | (std::uint64_t(can_exit) << 8));
                         if (can_exit) { scheduler.SchedulingPolicy::suspend(num_thread); }
                     }
                     else
                     {
+                        PIKA_VERIF_POST("el.chk", static_cast<scheduler_base const*>(&scheduler), num_thread, static_cast<std::uint64_t>(static_cast<std::uint8_t>(this_state.load())) | (std::uint64_t(can_exit) << 8));
                         can_exit = can_exit &&
                             scheduler.SchedulingPolicy::get_thread_count(
                                 thread_schedule_state::suspended,
